@@ -15,6 +15,8 @@
 #include <unistd.h>
 #include <sys/syscall.h>
 #include <linux/futex.h>
+#include <setjmp.h>
+#include <wchar.h>
 
 typedef void (*handler_t)(const char *, void *, int);
 static handler_t (*set_str)(handler_t), (*set_mem)(handler_t), (*tset_str)(handler_t), (*tset_mem)(handler_t);
@@ -29,17 +31,40 @@ static void rec(int hid, int code) { if (n_inv < 8) { last_inv[n_inv].hid = hid;
 void ignore_handler_s(const char *msg, void *ptr, int err) { (void)msg; (void)ptr; rec(1, err); }
 static void H1(const char *msg, void *ptr, int err) { (void)msg; (void)ptr; rec(2, err); }
 static void H2(const char *msg, void *ptr, int err) { (void)msg; (void)ptr; rec(3, err); }
-static handler_t hfn(int id) { return id == 0 ? NULL : id == 1 ? ignore_handler_s : id == 2 ? H1 : H2; }
-static int hid_of(handler_t h) { return h == NULL ? 0 : h == ignore_handler_s ? 1 : h == H1 ? 2 : h == H2 ? 3 : 9; }
+/* a handler that does not return: it leaves through longjmp into the code that made the violating call */
+static __thread sigjmp_buf hj_buf; static __thread int hj_armed;
+static void HJ(const char *msg, void *ptr, int err) { (void)msg; (void)ptr; rec(4, err); if (hj_armed) { hj_armed = 0; siglongjmp(hj_buf, 1); } }
+static handler_t hfn(int id) { return id == 0 ? NULL : id == 1 ? ignore_handler_s : id == 2 ? H1 : id == 4 ? HJ : H2; }
+static int hid_of(handler_t h) { return h == NULL ? 0 : h == ignore_handler_s ? 1 : h == H1 ? 2 : h == H2 ? 3 : h == HJ ? 4 : 9; }
+/* calls that violate nothing (op 4): they must neither invoke a handler nor touch any registration */
+static int (*wcsnatcmp_chk)(const wchar_t *, size_t, const wchar_t *, size_t, int, int *, size_t, size_t);
+static int (*wcsicmp_chk)(const wchar_t *, size_t, const wchar_t *, size_t, int *, size_t, size_t);
+static int (*sprintf_chk)(char *, size_t, size_t, const char *, ...);
+static int (*wcsnorm_chk)(wchar_t *, size_t, const wchar_t *, int, size_t *, size_t);
+static int (*strtok_chk)(char *, size_t *, const char *, char **, size_t);
+static int (*memset_chk)(void *, size_t, int, size_t, size_t);
+static const char *CALLN[] = { "wcsnatcmp_s+fold", "sprintf_s", "wcsicmp_s", "wcsnorm_s", "strcpy_s", "memset_s" };
+static int benign_call(int c) {
+    int d = 0; wchar_t wb[16]; char cb[16]; size_t l = 0;
+    switch (c) {
+    case 0: return wcsnatcmp_chk(L"File10", 7, L"file9", 6, 1, &d, (size_t)-1, (size_t)-1);
+    case 1: return sprintf_chk(cb, 16, (size_t)-1, "%d|%s", 5, "ab") < 0;
+    case 2: return wcsicmp_chk(L"Ab", 3, L"aB", 3, &d, (size_t)-1, (size_t)-1);
+    case 3: return wcsnorm_chk(wb, 16, L"e\x301", 1, &l, (size_t)-1);
+    case 4: return strcpy_chk(cb, 16, "ok", (size_t)-1);
+    default: return memset_chk(cb, 16, 0, 8, (size_t)-1);
+    }
+}
 
 /* ---- op encoding: kind(0 str,1 mem); op: 0 set, 1 thrd_set, 2 violate, 3 spawn; arg handler id (0 NULL,2 H1,3 H2) */
 typedef struct { int t, op, kind, h; } Step;
 static int step_str(const Step *s, char *b) {
-    static const char *hn[] = { "NULL", "DEF", "H1", "H2" };
+    static const char *hn[] = { "NULL", "DEF", "H1", "H2", "HJ(longjmp)" };
     switch (s->op) {
     case 0: return sprintf(b, "T%d:set_%s(%s)", s->t, s->kind ? "mem" : "str", hn[s->h]);
     case 1: return sprintf(b, "T%d:thrd_set_%s(%s)", s->t, s->kind ? "mem" : "str", hn[s->h]);
     case 2: return sprintf(b, "T%d:violate_%s", s->t, s->kind ? "mem" : "str");
+    case 4: return sprintf(b, "T%d:call(%s)", s->t, CALLN[s->h]);
     default: return sprintf(b, "T%d:spawn", s->t);
     }
 }
@@ -50,14 +75,16 @@ static void do_op(const Step *s, Obs *o) {
     if (s->op == 0) o->ret_hid = hid_of((s->kind ? set_mem : set_str)(hfn(s->h)));
     else if (s->op == 1) o->ret_hid = hid_of((s->kind ? tset_mem : tset_str)(hfn(s->h)));
     else if (s->op == 2) {
-        if (s->kind == 0) strcpy_chk(NULL, 4, "x", (size_t)-1); else memcpy_chk(NULL, 4, "x", 1, (size_t)-1, (size_t)-1);
+        if (sigsetjmp(hj_buf, 0) == 0) { hj_armed = 1; if (s->kind == 0) strcpy_chk(NULL, 4, "x", (size_t)-1); else memcpy_chk(NULL, 4, "x", 1, (size_t)-1, (size_t)-1); }
+        hj_armed = 0;
     }
+    else if (s->op == 4) o->ret_hid = benign_call(s->h) ? -2 : -1;
     o->ninv = n_inv; if (n_inv) { o->inv_hid = last_inv[0].hid; o->inv_tid = last_inv[0].tid; o->inv_code = last_inv[0].code; }
 }
 
 /* ---- reference model */
 #define MAXT 3
-typedef struct { int g[2]; int tl[MAXT][2]; int maybe[MAXT][2]; int nt; } Model;   /* maybe: inherited value allowed besides tl */
+typedef struct { int g[2]; int tl[MAXT][2]; int maybe[MAXT][2]; int nt; int jumped[MAXT][2], called[MAXT]; } Model;   /* maybe: inherited value allowed besides tl; jumped/called: history facts the registration state must not depend on (kept to tell such histories apart when de-duplicating) */
 static void model_init(Model *m) { memset(m, 0, sizeof *m); m->nt = 1; }
 /* returns 0 if the observation is consistent with the model (and advances the model) */
 static int model_step(Model *m, const Step *s, const Obs *o, char *why) {
@@ -79,7 +106,13 @@ static int model_step(Model *m, const Step *s, const Obs *o, char *why) {
         if (o->inv_tid != t) { sprintf(why, "handler ran on thread %d for a violation on thread %d", o->inv_tid, t); return 1; }
         if (o->inv_hid != exp && o->inv_hid != alt) { sprintf(why, "handler %d ran, expected %d (tl=%d global=%d)", o->inv_hid, exp, m->tl[t][k], m->g[k]); return 1; }
         if (o->inv_code != 400) { sprintf(why, "handler got code %d", o->inv_code); return 1; }
-        if (alt && o->inv_hid == alt) { m->tl[t][k] = alt; m->maybe[t][k] = 0; } else m->maybe[t][k] = 0;   /* inheritance question settled by observation */
+        if (alt && alt == exp) { /* the global and the possibly inherited handler are the same function: the observation settles nothing */ }
+        else if (alt && o->inv_hid == alt) { m->tl[t][k] = alt; m->maybe[t][k] = 0; } else m->maybe[t][k] = 0;   /* inheritance question settled by observation */
+        if (o->inv_hid == 4) m->jumped[t][k] = 1;
+    } else if (s->op == 4) {
+        if (o->ret_hid == -2) { sprintf(why, "a call that violates nothing failed"); return 1; }
+        if (o->ninv) { sprintf(why, "a call that violates nothing invoked handler %d", o->inv_hid); return 1; }
+        m->called[t] |= 1 << s->h;
     } else {
         int u = m->nt++;
         for (int kk = 0; kk < 2; kk++) { m->tl[u][kk] = 0; m->maybe[u][kk] = m->tl[t][kk]; }   /* a child of the registering thread may inherit (left open) */
@@ -88,7 +121,7 @@ static int model_step(Model *m, const Step *s, const Obs *o, char *why) {
 }
 static void model_key(const Model *m, char *b) {
     char *p = b; p += sprintf(p, "g%d%d n%d", m->g[0], m->g[1], m->nt);
-    for (int t = 0; t < m->nt; t++) p += sprintf(p, " t%d%d%d%d", m->tl[t][0], m->tl[t][1], m->maybe[t][0], m->maybe[t][1]);
+    for (int t = 0; t < m->nt; t++) p += sprintf(p, " t%d%d%d%d j%d%d c%d", m->tl[t][0], m->tl[t][1], m->maybe[t][0], m->maybe[t][1], m->jumped[t][0], m->jumped[t][1], m->called[t]);
 }
 
 /* ---- worker threads driven step by step (op-level histories) */
@@ -140,12 +173,14 @@ static int seen_add(uint64_t k) { if (!k) k = 1; size_t m = ((size_t)1 << SEEN_B
 static void hist_str(const Hist *h, char *b) { char *p = b; for (int i = 0; i < h->n; i++) { p += step_str(&h->s[i], p); *p++ = ' '; } *p = 0; }
 static void hist_enc(const Hist *h, char *b) { char *p = b; for (int i = 0; i < h->n; i++) p += sprintf(p, "%d%d%d%d", h->s[i].t, h->s[i].op, h->s[i].kind, h->s[i].h); }
 
+static int g_alpha2, g_maxt = MAXT, g_ncalls;   /* second alphabet: handlers NULL, HJ, H1 (, H2), calls that violate nothing, fewer threads */
 static int bfs(int depth, int nh, long shard, long nshards) {
     long states = 0, trans = 0, hists = 0; int viol = 0;
     seen = calloc((size_t)1 << SEEN_BITS, 8);
     capn = 1 << 18; frontier = malloc(capn * sizeof(Hist)); next_f = malloc(capn * sizeof(Hist));
     nfront = 1; frontier[0].n = 0; states = 1;
     int hv[4] = { 0, 2, 3, 1 };   /* handler argument values: NULL, H1, H2 (, explicit default) */
+    if (g_alpha2) { hv[1] = 4; hv[2] = 2; hv[3] = 3; }
     char samples[4][400]; int nsamp = 0;
     for (int d = 0; d < depth; d++) {
         nnext = 0;
@@ -153,11 +188,12 @@ static int bfs(int depth, int nh, long shard, long nshards) {
             Hist *h = &frontier[fi];
             /* threads alive after h */
             int nt = 1; for (int i = 0; i < h->n; i++) if (h->s[i].op == 3) nt++;
-            for (int t = 0; t < nt; t++) for (int op = 0; op < 4; op++) for (int k = 0; k < 2; k++) for (int a = 0; a < nh; a++) {
+            for (int t = 0; t < nt; t++) for (int op = 0; op < (g_alpha2 ? 5 : 4); op++) for (int k = 0; k < 2; k++) for (int a = 0; a < (op == 4 ? g_ncalls : nh); a++) {
                 if ((op == 2 || op == 3) && a) continue;
-                if (op == 3 && (k || nt >= MAXT)) continue;
+                if (op == 3 && (k || nt >= g_maxt)) continue;
+                if (op == 4 && k) continue;
                 if (d == 0 && (trans % nshards) != shard && nshards > 1) { trans++; continue; }   /* shard on the first step */
-                Hist nh_ = *h; nh_.s[nh_.n].t = t; nh_.s[nh_.n].op = op; nh_.s[nh_.n].kind = k; nh_.s[nh_.n].h = hv[a]; nh_.n++;
+                Hist nh_ = *h; nh_.s[nh_.n].t = t; nh_.s[nh_.n].op = op; nh_.s[nh_.n].kind = k; nh_.s[nh_.n].h = op == 4 ? a : hv[a]; nh_.n++;
                 Model m; char why[200] = ""; uint64_t lh;
                 int bad = run_history(nh_.s, nh_.n, &m, why, &lh, 0);
                 trans++; hists++;
@@ -179,7 +215,7 @@ static int bfs(int depth, int nh, long shard, long nshards) {
     }
 done:
     for (int i = 0; i < nsamp; i++) printf("{\"t\":\"sample\",\"hist\":\"%s\"}\n", samples[i]);
-    printf("{\"t\":\"stat\",\"mode\":\"bfs\",\"depth\":%d,\"states\":%ld,\"transitions\":%ld,\"histories\":%ld}\n", depth, states, trans, hists);
+    printf("{\"t\":\"stat\",\"mode\":\"%s\",\"depth\":%d,\"states\":%ld,\"transitions\":%ld,\"histories\":%ld}\n", g_alpha2 ? "bfs2" : "bfs", depth, states, trans, hists);
     return 0;
 }
 
@@ -257,6 +293,10 @@ int main(int argc, char **argv) {
     if (tv_init("libsafec")) { fprintf(stderr, "cannot locate static segment\n"); return 2; }
     tv_snapshot();
     if (argc < 2) return 2;
+    wcsnatcmp_chk = dlsym(L, "_wcsnatcmp_s_chk"); wcsicmp_chk = dlsym(L, "_wcsicmp_s_chk"); sprintf_chk = dlsym(L, "_sprintf_s_chk"); wcsnorm_chk = dlsym(L, "_wcsnorm_s_chk"); strtok_chk = dlsym(L, "_strtok_s_chk"); memset_chk = dlsym(L, "_memset_s_chk");
+    if (!wcsnatcmp_chk || !wcsicmp_chk || !sprintf_chk || !wcsnorm_chk || !memset_chk) { fprintf(stderr, "missing symbols\n"); return 2; }
+    /* bfs2 <depth> <nhandlers> <ncalls> <maxthreads> <shard> <nshards> */
+    if (!strcmp(argv[1], "bfs2")) { g_alpha2 = 1; g_ncalls = atoi(argv[4]); g_maxt = atoi(argv[5]); return bfs(atoi(argv[2]), atoi(argv[3]), atol(argv[6]), atol(argv[7])); }
     if (!strcmp(argv[1], "bfs")) return bfs(atoi(argv[2]), atoi(argv[3]), argc > 5 ? atol(argv[4]) : 0, argc > 5 ? atol(argv[5]) : 1);
     if (!strcmp(argv[1], "replay-hist")) {
         Hist h; const char *e = argv[2]; h.n = strlen(e) / 4;
